@@ -28,7 +28,7 @@ if [ $r_pristine = 0 ] && [ $r_build = 0 ] && [ $r_suite = 0 ] && [ $r_mut != 0 
   cat > $D/meta.json <<EOM
 {
  "property": "$P",
- "round": '${ROUND:-2}',
+ "round": ${ROUND:-2},
  "origin": "independent sub-agent given only the property record and a scratch worktree (nothing from /verif)",
  "demo": {"place": "$PKG/zz_seeded_demo_test.go", "run": "GOTOOLCHAIN=local go1.26 test -vet=off -count=1 -run '$RX' ./$PKG/"},
  "confirmed": {"demo_passes_on_pristine": true, "builds_with_patch": true, "pinned_suite_passes_with_patch": true, "demo_fails_with_patch": true,
